@@ -4,7 +4,7 @@ import ast
 from .. import dispatch
 from ..cfg import CFG
 from ..report import borrow, AnalysisError, norm
-from ..srcmodel import own_nodes, own_statements
+from ..srcmodel import own_nodes, own_statements, program_order
 from ..facts import facts
 from ..terms import Resolver, alternatives, mentions, show, walk
 
@@ -133,7 +133,7 @@ def r2_left_wins(rep, ctx):
         return False
 
     n = 0
-    for r in sorted((x for x in own_nodes(sq.node) if isinstance(x, ast.Return) and isinstance(x.value, ast.Tuple) and len(x.value.elts) == 2), key=lambda x: x.lineno):
+    for r in sorted((x for x in own_nodes(sq.node) if isinstance(x, ast.Return) and isinstance(x.value, ast.Tuple) and len(x.value.elts) == 2), key=program_order(sq.node)):
         n += 1
         org = sres.origins(r.value.elts[0])
         chains = sres.origin_chains
